@@ -79,17 +79,45 @@ def build_coq():
         return ok, log, msgs
 
 
+def strip_comments(txt):
+    out = []
+    depth = 0
+    i = 0
+    while i < len(txt):
+        if txt.startswith("(*", i):
+            depth += 1
+            i += 2
+        elif txt.startswith("*)", i) and depth > 0:
+            depth -= 1
+            i += 2
+        else:
+            if depth == 0:
+                out.append(txt[i])
+            i += 1
+    return "".join(out)
+
+
+FORBIDDEN_ANYWHERE = r"\b(Admitted|admit|Axiom|Axioms|Parameter|Parameters|Conjecture|Conjectures|Unset\s+Guard|bypass_check|Guard\s+Checking|Positivity\s+Checking|Universe\s+Checking|type-in-type|impredicative-set|Admit\s+Obligations|native_compute)\b"
+FORBIDDEN_OUTSIDE_SECTION = r"\b(Hypothesis|Hypotheses|Variable|Variables|Context)\b"
+
+
 def grep_forbidden():
+    """forbidden words anywhere; Variable / Hypothesis only outside a Section (inside one they are
+    discharged when the section closes, and Print Assumptions shows nothing for them)"""
     hits = []
     for path in glob.glob(os.path.join(COQ, "**", "*.v"), recursive=True):
-        txt = open(path).read()
-        # strip comments (non-nested is enough for our files; nested handled by loop)
-        prev = None
-        while prev != txt:
-            prev = txt
-            txt = re.sub(r"\(\*[^*(]*(?:\*(?!\))[^*(]*|\((?!\*)[^*(]*)*\*\)", " ", txt)
-        for m in re.finditer(FORBIDDEN, txt):
+        txt = strip_comments(open(path).read())
+        for m in re.finditer(FORBIDDEN_ANYWHERE, txt):
             hits.append("%s: %s" % (os.path.relpath(path, ROOT), m.group(0)))
+        depth = 0
+        for sentence in re.split(r"\.\s", txt):
+            st = sentence.strip()
+            if re.match(r"^Section\s+\w+$", st):
+                depth += 1
+            elif re.match(r"^End\s+\w+$", st):
+                depth = max(0, depth - 1)
+            elif depth == 0 and re.search(FORBIDDEN_OUTSIDE_SECTION, st):
+                hits.append("%s: %s outside a section" % (os.path.relpath(path, ROOT), re.search(FORBIDDEN_OUTSIDE_SECTION, st).group(0)))
     return hits
 
 
